@@ -120,7 +120,7 @@ def gen_jobs(rng, thorough):
             rng.shuffle(lv)
             jobs.append({"via": "kernel", "method": "linear", "thetas": grp, "phis": [[rng.randint(-6, 6) for _ in range(n)] for _ in grp],
                          "levels": [lv], "mask": mask, "bypass": False, "ids": ids, "seed": cid})
-    for _ in range(3000 if thorough else 350):
+    for _ in range(3000 if thorough else 700):
         n = rng.randint(2, 5)
         method = rng.choice(["linear", "linear", "log"])
         T2 = rng.randint(n, 8)
